@@ -63,7 +63,10 @@ func (b Buffer) RedactableBytes() m.RedactableBytes {
 	// buffer. The finalize() method should not be called
 	// in a conceputally read-only accessor like RedactableBytes().
 	b.finalizeCopy()
-	return m.RedactableBytes(b.buf)
+	// The result must not share its array with the buffer: later
+	// writes (which can remove a trailing closing marker in place) or
+	// a Reset() would modify it under its holder.
+	return append(m.RedactableBytes(nil), b.buf...)
 }
 
 // RedactableString returns the bytes in the buffer.
